@@ -66,6 +66,22 @@ def _app_hash_bounded(tier, seed):
     return out
 
 
+def _sgx_envelope_bounded(tier, seed):
+    import subprocess, os, json
+    here = os.path.dirname(os.path.dirname(os.path.abspath(__file__)))
+    cmd = ["/venv/bin/python", os.path.join(here, "bounded", "sgx_envelope.py")] + (["--full"] if tier == "thorough" else [])
+    p = subprocess.run(cmd, capture_output=True, text=True, timeout=1800)
+    try:
+        d = json.loads(p.stdout)
+    except ValueError:
+        return dict(name="bounded-sgx-envelope", bounded=True, status="checker-error", error=(p.stdout + p.stderr)[-600:])
+    out = dict(name="bounded-sgx-envelope", bounded=True, bound=d["bound"], stats=d["stats"], status="violation" if d["failures"] else "ok",
+               note="real sgx/envelope.py on envelopes built by construction at the Intel layout; NOT counted as proved")
+    if d["failures"]:
+        out.update(witness=d["failures"][0], what=d["failures"][0]["what"], replay_cmd="/venv/bin/python bounded/sgx_envelope.py --replay <this file>")
+    return out
+
+
 def _certs_v2_bounded(prop):
     def run(tier, seed):
         import subprocess, os, json
@@ -220,9 +236,11 @@ PROPS = {
                                                       "written by one command are accepted by another with the device's values, and any alteration is refused - is a whole-history property "
                                                       "and is NOT decided: its verification side is what C06 / C07 / C08 / C16 state about the individual functions",
                                                       "assumed contracts: get_powhsm_attestation (paging with legacy framing not verified), get_ud_value_for_attestation, "
-                                                      "HSMCertificate.from_jsonfile, save_to_jsonfile; onboarding's endorsement set-up, the SGX envelope path and dongle_admin are not under contract"],
+                                                      "HSMCertificate.from_jsonfile, save_to_jsonfile; onboarding's endorsement set-up, the SGX envelope path and dongle_admin are not under contract "
+                                                      "(the envelope parser sgx/envelope.py has a BOUNDED harness only: bounded/sgx_envelope.py)"],
                 trusted_base=TB + ["spec/certs.py"],
-                explanation="wiring of device answers into the certificate, as assertions at the save call site; paging loop unrolled with an unwinding assertion"),
+                explanation="wiring of device answers into the certificate, as assertions at the save call site; paging loop unrolled with an unwinding assertion",
+                extras=[_sgx_envelope_bounded]),
     "C13": dict(level="proof", assumptions=COMMON + [A_FW], trusted_base=TB + ["spec/firmware.py"],
                 explanation="reply fields are equated with the answers recorded in the ghost log, selectors from the firmware headers"),
 }
